@@ -223,8 +223,17 @@ def validate(scns, logs, twins=None, *, parallel=10, stats=None, conformance=Tru
     if n == 0:
         return bad, drift
     idx = list(range(n))
-    nsh = max(1, (n + 299) // 300)          # bounded data modules: more runs rather than bigger ones
-    shards = [idx[i::nsh] for i in range(nsh)]
+    # bounded data modules (more runs rather than bigger ones): at most 300 executions and about 2500 logged lines each
+    shards, cur, lines = [], [], 0
+    for i in idx:
+        w = len(logs[i]) + (len(twins[i]) if twins and twins[i] else 0)
+        if cur and (len(cur) >= 300 or lines + w > 2500):
+            shards.append(cur)
+            cur, lines = [], 0
+        cur.append(i)
+        lines += w
+    if cur:
+        shards.append(cur)
     runs = []
     for s in shards:
         data = data_traces([scns[i] for i in s], [logs[i] for i in s], [twins[i] for i in s] if twins else None)
